@@ -168,12 +168,17 @@ ResolveS(c, md, s, path, self, vis) ==
       ELSE IF Head(path) = "pkg" /\ ~md.ps THEN Walk(c, ModI(<<>>), Tail(path))
       ELSE Walk(c, LookupS(c, md, s, Head(path), self, vis), Tail(path))
 
-Final(r) == IF r.k \in {"item", "local"} THEN r ELSE Err
+(* the reference must end in a value: an item, or a local variable that is  *)
+(* read (f and g are always written as calls `f()`; calling a local         *)
+(* variable is an error)                                                    *)
+Final(c, r) == IF r.k = "item" THEN r
+               ELSE IF r.k = "local" /\ Last(c.ref) \notin {"f", "g"} THEN r
+               ELSE Err
 
 OutcomeS(c, md) ==
   IF DupModule(c) THEN Err
   ELSE IF \E j \in 1..Len(c.imps) : TargetS(c, md, j, {}).k = "err" THEN Err
-  ELSE Final(ResolveS(c, md, B(c.depth), c.ref, 0, {}))
+  ELSE Final(c, ResolveS(c, md, B(c.depth), c.ref, 0, {}))
 
 -----------------------------------------------------------------------------
 (* Deviation model `seq`: the imports of a scope are resolved one after the *)
@@ -231,7 +236,7 @@ SeqMap(c, md, s) == Loop(c, md, s, IdxSeq(c, s, 1), {})
 OutcomeQ(c, md) ==
   IF DupModule(c) THEN Err
   ELSE IF \E s \in AllScopes(c) : ImpIdx(c, s) # {} /\ ~SeqMap(c, md, s).ok THEN Err
-  ELSE Final(ResolveQ(c, md, B(c.depth), c.ref, NoScope, {}))
+  ELSE Final(c, ResolveQ(c, md, B(c.depth), c.ref, NoScope, {}))
 
 -----------------------------------------------------------------------------
 (* What the check asserts                                                   *)
@@ -257,6 +262,23 @@ Exports(c) == {[p |-> it.p, n |-> it.n, present |-> (it.p \in c.mods)] : it \in 
 OuterNamesakes(c) ==
   {Alias(c, j) : j \in {i \in 1..Len(c.imps) :
       LookupS(c, Strict, Parent(c, c.imps[i].sc), Alias(c, i), 0, {}).k # "err"}}
+
+(* inner import against outer declaration (anti-vacuity): when the first    *)
+(* segment of the reference is decided by an import, the scope of that      *)
+(* import and the kinds of the same-named DECLARATIONS of the scopes that   *)
+(* enclose it (which the import must beat)                                  *)
+RECURSIVE Encl(_, _), ProvScope(_, _, _)
+Encl(c, s) == IF s.t = "g" THEN {} ELSE {Parent(c, s)} \cup Encl(c, Parent(c, s))
+ProvScope(c, s, id) ==
+  IF HasDecl(c, s, id) THEN NoScope
+  ELSE IF Prov(c, s, id, 0) # {} THEN s
+  ELSE IF s.t = "g" THEN NoScope
+  ELSE ProvScope(c, Parent(c, s), id)
+InnerVsOuter(c) ==
+  LET id == Head(c.ref)
+      s  == IF NSup(c.ref) > 0 \/ id = "pkg" THEN NoScope ELSE ProvScope(c, B(c.depth), id)
+  IN  [t |-> s.t, i |-> s.i,
+       kinds |-> IF s.t = "none" THEN {} ELSE {Decl(c, e, id).k : e \in {x \in Encl(c, s) : HasDecl(c, x, id)}}]
 
 (* which lookup rule decides the expected resolution (anti-vacuity classes) *)
 RECURSIVE HowS(_, _, _, _)
